@@ -68,6 +68,15 @@ def run(ctx, w):
     prims.buffer_edit_primitives(ctx, w, S, R, "R13", spec=False)
     ctx.floor("R13", 1000, "buffer edit primitive evaluations")
     c02_row_units(ctx, w, S, R)
+    # A5 again: the ranges the handlers hand to the scroll primitives are ordered (cursor row .. margin / last row)
+    from rules import c06, c14
+    up, down = c06.scroll_prims(w, S)
+    if up and down:
+        c06.range_rules(ctx, w, S, R, up, down)
+    # A8 (hard >= soft, size - soft under size > hard): the trim arithmetic interpreted for every small size / limit
+    T14 = c14.Trim(w, S, R)
+    if T14.ok:
+        shared.gc_verdict(ctx, w, S, T14, "R15")
 
 
 def c02_row_units(ctx, w, S, R):
@@ -166,8 +175,31 @@ def flatten_loads(t, acc=None):
     return acc
 
 
+def const_eval(t):
+    """Integer value of a term built from constants only, else None."""
+    if t[0] == "const" and isinstance(t[1], int) and not isinstance(t[1], bool):
+        return t[1]
+    if t[0] == "binop" and t[1] in ("Add", "Sub", "Mul") and len(t) == 4:
+        a, b = const_eval(t[2]), const_eval(t[3])
+        if a is not None and b is not None:
+            return {"Add": a + b, "Sub": a - b, "Mul": a * b}[t[1]]
+    if t[0] == "min" and len(t) >= 3:
+        vs = [const_eval(x) for x in t[1:]]
+        if all(v is not None for v in vs):
+            return min(vs)
+    return None
+
+
 def range_ok(w, fn, b, pt, t, fld, N):
     self_t = ("load", ("arg1", fld))
+    cv = const_eval(t)
+    if cv is not None:
+        return (0 <= cv < N, "constant %d is not < %d" % (cv, N))
+    if t[0] == "min" and len(t) == 3:
+        cvs = [const_eval(x) for x in t[1:]]
+        cvs = [v for v in cvs if v is not None]
+        if cvs:
+            return (min(cvs) < N, "min with %d does not keep it below %d" % (min(cvs), N))
     if t[0] == "const" and isinstance(t[1], int):
         return (t[1] < N, "constant %d is not < %d" % (t[1], N))
     if t[0] == "min" and len(t) == 3:
